@@ -198,10 +198,12 @@ def concStep (c : CCfg) (r : CRun) : SchedEl → CRun
           let howJ := match how with
             | .computed => Json.str "computed"
             | .hit d t0 => jObj [("hit", jNat d), ("t0", jNat t0), ("created", jNat (s'.created d))]
+          -- the literal clause speaks about PLAIN callers: threads outside any block of their own
+          let plain := decide ((s'.thr t).mode = .out)
           { r1 with rets := jObj [("tid", jNat t), ("f", jNat f), ("val", jNat e.val), ("tr", jNat e.tr),
                                    ("cs", jNat cs), ("now", jNat s'.now), ("how", howJ),
-                                   ("interval", Json.bool iok), ("literal", Json.bool lok)] :: r1.rets,
-                    allInterval := r1.allInterval && iok, allLiteral := r1.allLiteral && lok }
+                                   ("interval", Json.bool iok), ("literal", Json.bool lok), ("plain", Json.bool plain)] :: r1.rets,
+                    allInterval := r1.allInterval && iok, allLiteral := r1.allLiteral && (lok || !plain) }
         | .retErr f _ =>
           { r1 with rets := jObj [("tid", jNat t), ("f", jNat f), ("exc", "AccessDenied")] :: r1.rets }
         | .err =>
@@ -304,10 +306,12 @@ def concStep2 (c : CCfg2) (r : CRun2) : SchedEl → CRun2
             | .computed => Json.str "computed"
             | .hitP d t0 => jObj [("hitP", jNat d), ("t0", jNat t0), ("ep", jNat (s'.ep d))]
             | .hitF d t0 => jObj [("hitF", jNat d), ("t0", jNat t0), ("ep", jNat (s'.ep d))]
+          let plain := decide ((s'.thr t).ph = .out)
           { r1 with rets := jObj [("tid", jNat t), ("g", jNat g), ("val", jNat e.val), ("tr", jNat e.tr),
                                    ("cs", jNat cs), ("now", jNat s'.now), ("how", howJ),
-                                   ("interval", Json.bool iok), ("literal", Json.bool lok)] :: r1.rets,
-                    allInterval := r1.allInterval && iok, allLiteral := r1.allLiteral && lok }
+                                   ("interval", Json.bool iok), ("literal", Json.bool lok), ("plain", Json.bool plain),
+                                   ("depth", jNat (s'.thr t).stack.length)] :: r1.rets,
+                    allInterval := r1.allInterval && iok, allLiteral := r1.allLiteral && (lok || !plain) }
         | .retErr g _ =>
           { r1 with rets := jObj [("tid", jNat t), ("g", jNat g), ("exc", "AccessDenied")] :: r1.rets }
         | _ => r1
